@@ -101,6 +101,7 @@ type World struct {
 
 	icfg    Cfg
 	icfgSet bool
+	Pins       map[int64][]*iavl.Exporter // open exporters per version (C04/C06: pinned versions cannot be deleted)
 	NormalForm bool // generate every version's writes in normal form (C15)
 	// F1Exposed: a hash-memoising read ran on the working tree while a non-default initial version was pending
 	F1Exposed bool
@@ -198,6 +199,7 @@ func incr(b []byte) []byte {
 }
 
 func (w *World) Close() {
+	w.unpinAll()
 	if w.Tree != nil {
 		_ = w.Tree.Close()
 		w.Tree = nil
@@ -272,6 +274,10 @@ func (w *World) Apply(op Op) (v *Violation) {
 		}
 	}()
 	t := w.Tree
+	switch op.Kind {
+	case "reopen", "lvfo", "dvf", "hop":
+		w.unpinAll()
+	}
 	switch op.Kind {
 	case "set":
 		if op.V == nil {
@@ -372,6 +378,28 @@ func (w *World) Apply(op Op) (v *Violation) {
 		w.Cur = n
 		w.setWorkingFrom(n)
 		w.Labels["dvf"] = true
+	case "pin":
+		it, err := t.GetImmutable(op.N)
+		if err != nil {
+			return w.viol("pin.getimmutable", "GetImmutable(%d): %v", op.N, err)
+		}
+		ex, err := it.Export()
+		if err != nil {
+			return w.viol("pin.export", "Export of version %d: %v", op.N, err)
+		}
+		if w.Pins == nil {
+			w.Pins = map[int64][]*iavl.Exporter{}
+		}
+		w.Pins[op.N] = append(w.Pins[op.N], ex)
+		w.Labels["pin"] = true
+	case "unpin":
+		if exs := w.Pins[op.N]; len(exs) > 0 {
+			exs[len(exs)-1].Close()
+			w.Pins[op.N] = exs[:len(exs)-1]
+			if len(w.Pins[op.N]) == 0 {
+				delete(w.Pins, op.N)
+			}
+		}
 	case "read":
 		return w.applyRead(op)
 	case "iter":
@@ -516,8 +544,44 @@ func (w *World) applyReopen(op Op) *Violation {
 	return nil
 }
 
+func (w *World) unpinAll() {
+	for v, exs := range w.Pins {
+		for _, ex := range exs {
+			ex.Close()
+		}
+		delete(w.Pins, v)
+	}
+}
+
+func (w *World) pinnedIn(lo, hi int64) bool {
+	for v := range w.Pins {
+		if v >= lo && v <= hi {
+			return true
+		}
+	}
+	return false
+}
+
 func (w *World) applyPrune(op Op) *Violation {
 	n := op.N
+	if n < w.Latest && w.pinnedIn(w.First, n) {
+		// a version held by an open export: the request must be rejected (sync pruning) and have no effect
+		before := w.rawDump()
+		err := w.Tree.DeleteVersionsTo(n)
+		if err == nil {
+			return w.viol("prune.pinned", "DeleteVersionsTo(%d) succeeded although a version in %d..%d is held by an open export", n, w.First, n)
+		}
+		if !eqDump(before, w.rawDump()) {
+			return w.viol("prune.pinned_effect", "rejected DeleteVersionsTo(%d) (open export) changed the store", n)
+		}
+		// nothing may have happened in memory either: the versions stay available (observers check the range)
+		// and a commit of pending batch content must not carry out any part of the deletion
+		w.Labels["prune_refused_pinned"] = true
+		if w.Obs.Fresh {
+			return w.checkFresh("prune_pinned")
+		}
+		return nil
+	}
 	if n >= w.Latest {
 		before := w.rawDump()
 		err := w.Tree.DeleteVersionsTo(n)
@@ -1209,6 +1273,7 @@ func (w *World) drainToEmpty() *Violation {
 	if w.Latest == 0 {
 		return nil
 	}
+	w.unpinAll()
 	if w.Cur != w.Latest {
 		c := w.Cfg
 		if v := w.Apply(Op{Kind: "reopen", Cfg: &c}); v != nil {
